@@ -5,10 +5,12 @@ Open Scope list_scope.
 
 (* ---- networkx: geff.write(G, fresh store) ; geff.read(store, backend="networkx") ; adapter view ----
    For every directed / undirected graph of any size with distinct node ids in [0, 2^64), edges between its nodes, no edge twice
-   (as unordered pairs when undirected), non-empty property names, and attributes present on ANY subset of the nodes / edges such
-   that each property column (val_col) -- its values together with the fill value used where an element lacks it -- consists of
-   Python scalars numpy types alike (all bool, all int64-range ints, all ints of [2^63,2^64) on every element, all float, all str),
-   or of nested lists of one shape, or of nested lists of one rank and different shapes (ragged), with leaves typed alike:
+   (as unordered pairs when undirected), usable property names (Names.name_ok: one non-empty path segment without "/" or "\", not "."
+   / "..", not a reserved member name of zarr), no string value ending in NUL (strs_ok), and attributes present on ANY subset of the
+   nodes / edges such that each property column (val_col) -- its values together with the fill value used where an element lacks it --
+   consists of Python scalars numpy types alike (all bool, all int64-range ints, all ints of [2^63,2^64) on every element, all float,
+   all str), or of nested lists of one shape, or of nested lists of one rank and different shapes (ragged), with leaves typed alike,
+   or of nested lists of one shape without any leaf (the same domain read declaratively: C03_decl_dom below):
    the write succeeds, and the graph read back has the same directedness, the same node ids and the same edges in the same order,
    and on every node / edge EXACTLY the properties it had -- a property it lacked is absent (no fill value) -- with the same value,
    the same kind (bool / int / float / str) and, for arrays, the same shape and element kind (cv_of_py). *)
@@ -79,8 +81,10 @@ Print Assumptions C03_fill_kind.
 (* ---- the backends agree: construct from ONE in-memory geff ----
    For every well-formed geff (distinct node ids, edges between them, no edge twice, one value and one mask entry per element) whose
    canonical view cg is defined: NxBackend.construct gives cg; RxBackend.construct, seen through to_rx_id_map, gives cg; and on the
-   spatial-graph domain (sg_dom: >= 1 node and axis, supported numeric dtypes, no missing values, fixed-shape properties of rank <= 2,
-   axis properties 1-D of one dtype, no property called like position_attr) SgBackend.construct seen through the SgGraphAdapter gives cg. *)
+   spatial-graph domain (sg_dom: >= 1 node and axis, supported numeric dtypes, no missing values, fixed-shape properties of rank <= 2
+   -- rank 2 not of an 8-bit dtype --, axis properties 1-D of one dtype that is not 8-bit, no property called like position_attr)
+   SgBackend.construct seen through the SgGraphAdapter gives cg.  "No edge twice" is part of wf_geff: on a geff with a repeated edge
+   networkx and rustworkx do NOT agree (C03_repeated_edge_witnesses). *)
 Theorem C03_agree : forall g ids es cg,
   wf_geff g ids es -> props_fit (length ids) (g_nprops g) -> props_fit (length es) (g_eprops g) ->
   canon_geff g = Ok cg ->
@@ -101,7 +105,8 @@ Print Assumptions C03_sg_construct.
 
 (* ---- spatial-graph: geff.write(G, axis_names=names) ; geff.read(backend="spatial-graph") ----
    For every non-empty spatial graph (sgc_dom: distinct integer node ids, edges between them, no edge twice, ndims = number of axis
-   names, distinct non-empty axis names that are not attribute names, int8..uint64 / float32 / float64 scalar or vector attributes):
+   names, distinct usable (name_ok) axis names that are not attribute names, usable attribute names, int8..uint64 / float32 / float64
+   scalar attributes, int16..uint64 / float32 / float64 vector attributes -- hence a position that is not 8-bit):
    the write succeeds (the position attribute is stored as one property per axis), the store validates, and the graph constructed
    from it has the same nodes array, edges array, directedness and ndims, and the SAME SgGraphAdapter view (every attribute and every
    position component under its axis name, values and kinds) as the graph that was written. *)
